@@ -20,3 +20,11 @@ Open Scope Z_scope.
 
 Theorem C01_nest_sound_partial : forall L tms, wf L tms -> forall p, sum_at p (run L tms) = body_den tms p.
 Proof. exact nest_sound. Qed.
+
+(* certified validation of one emitted program: the boolean validator evaluated by the kernel on the rank
+   structure and per-level co-iteration read off the program (tools/props/c01.py) implies, for ALL inputs,
+   that the nest computes the sum of products, and that the text co-iterates exactly what `run` does *)
+Theorem C01_nest_okb_sound_partial : forall L tms views,
+  nest_okb L (map (map rem) tms) views = true ->
+  views = expected_views L (map (map rem) tms) /\ forall p, sum_at p (run L tms) = body_den tms p.
+Proof. exact nest_okb_sound. Qed.
